@@ -458,6 +458,38 @@ pub fn random_recipe(r: &mut Rng, family: Family, size: usize) -> Recipe {
     }
 }
 
+/// Several assertions, some of them sharing a hidden CMR (for the repeated-hidden-node rule).
+pub fn assert_recipe(r: &mut Rng, family: Family) -> Recipe {
+    let mut ops = Vec::new();
+    let k = r.urange(2, 5);
+    let shared = r.byte() & 3;
+    for i in 0..k {
+        // assertl(take(leaf), h) : (A + B) x C -> T   /   assertr(h, take(leaf)) : (A + B) x C -> T
+        ops.push(match r.below(3) {
+            0 => GOp::Iden,
+            1 => GOp::Unit,
+            _ => GOp::Word(r.below(4) as u8, r.next_u64()),
+        });
+        if let Some(GOp::Word(..)) = ops.last() {
+            // word: 1 -> 2^n; make it total on any source
+            ops.insert(ops.len() - 1, GOp::Unit);
+            ops.push(GOp::Comp);
+        }
+        ops.push(GOp::Take);
+        let h = if r.chance(2, 3) { shared } else { r.byte() & 3 };
+        ops.push(if r.chance(3, 4) { GOp::AssertL(h) } else { GOp::AssertR(h) });
+        if i > 0 {
+            ops.push(GOp::Pair);
+        }
+    }
+    Recipe {
+        family,
+        ops,
+        close: if r.bool() { Close::Late } else { Close::Early },
+        wit_seed: r.next_u64(),
+    }
+}
+
 /// Deep-nesting families: one unary combinator repeated `n` times around a leaf.
 pub fn deep_recipe(r: &mut Rng, family: Family, n: u32) -> Recipe {
     let kind = r.below(6);
